@@ -220,7 +220,7 @@ class ComputeTypeVisitor(Visitor.DefaultVisitor):
         for importedModule in module.GetImports():
             irModule = self.__loader.Load(importedModule)
 
-            for moduleType in irModule.Metadata["types"]:
+            for moduleType in irModule.Metadata["types"].values():
                 assert isinstance(moduleType, types.Type)
                 ctx[-1].RegisterType(moduleType.GetName(), moduleType)
             for func in irModule.Metadata["functions"]:
